@@ -10,6 +10,7 @@ CONSTANTS
   AllowCancel = TRUE
   EarlyExits = TRUE
   MaxConc = 9
+  Spawn = "go"
   Record = FALSE
 SPECIFICATION TSpec
 INVARIANTS TypeOK SingleSend ReturnsOnce SuccessMeansQuorum ErrorMeansNoQuorum ErrorIsReal ChannelErrorIsReal
